@@ -116,11 +116,11 @@ func (m *incomingStreamsMap[T]) AcceptStream(ctx context.Context) (T, error) {
 
 func (m *incomingStreamsMap[T]) GetOrOpenStream(id protocol.StreamID) (T, error) {
 	m.mutex.RLock()
-	if id > m.maxStream {
+	if maxStream := m.maxStream; id > maxStream {
 		m.mutex.RUnlock()
 		return *new(T), &qerr.TransportError{
 			ErrorCode:    qerr.StreamLimitError,
-			ErrorMessage: fmt.Sprintf("peer tried to open stream %d (current limit: %d)", id, m.maxStream),
+			ErrorMessage: fmt.Sprintf("peer tried to open stream %d (current limit: %d)", id, maxStream),
 		}
 	}
 	// if the num is smaller than the highest we accepted
